@@ -347,6 +347,9 @@ func (v *Verifier) applyContract(st *State, in *ssa.Call, c *Contract, fn *ssa.F
 		tenv := v.entryEnv()
 		cur := tenv.eval(c.Decr.Expr).T
 		v.addOb(fmt.Sprintf("term:%s", site), "term", "decreases "+c.Decr.Text, st, And(Ge(callee, IntLit(0)), Lt(callee, cur)), false)
+		if c.RecBound != nil {
+			v.addOb(fmt.Sprintf("depth:%s", site), "term", "recursive calls satisfy "+c.RecBound.Text, st, env.evalBool(c.RecBound.Expr), false)
+		}
 	} else if fn != nil && v.top != nil && fn == v.top && c.Decr == nil {
 		unsup("recursive function %s has no decreases clause", c.Key)
 	}
